@@ -616,3 +616,49 @@ Lemma ex_wss_alias :
     {| a_scheme := WSS; a_server := a_server ex_adapter; a_script := [SLASH]; a_subdomain := None; a_query := [] |} [47; 111; 108; 100] GET
   = RedirectTo (WSS ++ [COLON; SLASH; SLASH] ++ a_server ex_adapter ++ [47; 110; 101; 119]).
 Proof. vm_compute. reflexivity. Qed.
+
+(* ================================================================== Rule(build_only=True) *)
+Lemma matchable_in bo mall r : In r (m_rules (matchable bo mall)) -> In r (m_rules mall) /\ bo (r_idx r) = false.
+Proof.
+  cbn [matchable m_rules]. intro H. apply filter_In in H. destruct H as [H1 H2]. split; [exact H1|].
+  destruct (bo (r_idx r)); [discriminate|reflexivity].
+Qed.
+
+(* a build_only rule never answers a request, and never is the rule a defaults redirect is built from *)
+Theorem build_only_never_matches bo mall a p me r vs :
+  router_match_bo bo mall a p me = Match r vs -> In r (m_rules mall) /\ bo (r_idx r) = false.
+Proof.
+  unfold router_match_bo, map_match, adapter_match. fold (upper me).
+  destruct (matcher_run (matchable bo mall) (trie_of (matchable bo mall)) (domain_part (matchable bo mall) a) (path_part p) (upper me) (a_websocket a))
+    as [r0 v0|p'|hm wsm] eqn:E; [|discriminate|destruct (negb (is_nil hm)); [discriminate|destruct wsm; discriminate]].
+  apply matcher_ok_sound in E. destruct E as (Hin & _).
+  destruct (r_alias r0 && m_redirect_defaults (matchable bo mall)).
+  - cbn [h_alias]. destruct (alias_redirect_url mall a (upper me) r0 _); discriminate.
+  - destruct (m_redirect_defaults (matchable bo mall)).
+    + cbn [h_default]. destruct (get_default_redirect (matchable bo mall) a (upper me) r0 _) as [[u|]| |]; try discriminate.
+      intro H. injection H as <- _. exact (matchable_in _ _ _ Hin).
+    + intro H. injection H as <- _. exact (matchable_in _ _ _ Hin).
+Qed.
+
+Theorem build_only_never_provides_defaults bo mall a meth rule0 vals u :
+  get_default_redirect (matchable bo mall) a meth rule0 vals = BOk (Some u) ->
+  exists r dp, In r (m_rules mall) /\ bo (r_idx r) = false /\ provides_defaults_for r rule0 = true
+    /\ build_rule r (dict_update vals (r_defaults r)) = BOk dp /\ u = make_redirect_url (matchable bo mall) a (snd dp) (Some (fst dp)).
+Proof.
+  unfold get_default_redirect. intro H.
+  destruct (default_loop_found _ _ _ _ _ _ _ H) as (pre & r & post & dp & HL & _ & _ & Hprov & _ & Hb & Hu).
+  assert (HinL : In r (rules_for (matchable bo mall) (r_endpoint rule0))) by (rewrite HL; apply in_or_app; right; left; reflexivity).
+  destruct (rules_for_in _ _ _ HinL) as [Hin _]. destruct (matchable_in _ _ _ Hin) as [H1 H2].
+  exists r, dp. auto 6.
+Qed.
+
+(* Map([Rule('/', defaults={'x': 1}, build_only=True, endpoint=e), Rule('/g/<int:x>', endpoint=e)]): '/g/1' is answered, not redirected *)
+Definition cx_bo : rule :=
+  {| r_idx := 5; r_endpoint := 7; r_dom := SLit []; r_segs := []; r_tail := None;
+     r_branch := true; r_methods := None; r_strict_opt := None; r_merge_opt := None; r_websocket := false; r_alias := false;
+     r_defaults := [(LX, VInt 1)] |}.
+Lemma ex_build_only :
+  router_match_bo (fun i => i =? 5) (mk_map [cx_bo; cx_var]) ex_adapter [47; 103; 47; 49] GET = Match cx_var [(LX, VInt 1)]
+  /\ router_match_bo (fun i => i =? 5) (mk_map [cx_bo; cx_var]) ex_adapter [47] GET = NotFound
+  /\ exists u, router_match (mk_map [cx_bo; cx_var]) ex_adapter [47; 103; 47; 49] GET = RedirectTo u.
+Proof. split; [vm_compute; reflexivity|]. split; [vm_compute; reflexivity|]. eexists. vm_compute. reflexivity. Qed.
